@@ -15,6 +15,7 @@ from vf.engine import core
 
 PID = '000001'
 NPERM = 14
+SMA_LB = 3           # lookback of the moving-average signal in the signal-driven configurations
 
 
 # ------------------------------------------------------------------------------------------------
@@ -41,7 +42,7 @@ def all_configs(tier):
                    bound='2 assets, the bars of B start on day 4 (after the first rebalance on day 2): the price of B is unavailable when first sized'))
     c.append(_base('s2_dynamic_signals', assets=['EQ:A', 'EQ:B'], universe='dynamic', entries={'EQ:A': '2020-01-07 00:00', 'EQ:B': '2020-01-07 00:00'},
                    alpha='sma_trend', nd=6, weight=1800, chunk=4,
-                   bound='2 assets entering a dynamic universe together on day 1, SMA(2) signals collection, trend-following alpha (long above the average), weekly WED, 6 days'))
+                   bound='2 assets entering a dynamic universe together on day 1, SMA(3) signals collection, trend-following alpha (long above the average), weekly WED, 6 days'))
     c.append(_base('s3_entries', assets=['EQ:A', 'EQ:B', 'EQ:C'], universe='dynamic', alpha='single', nd=8, weight=2500, chunk=4,
                    entries={'EQ:A': '2020-01-01 00:00', 'EQ:B': '2020-01-08 21:00', 'EQ:C': '2020-01-08 21:01'},
                    bound='3 assets, dynamic universe: A enters before the start, B exactly on the first rebalance instant (Wed 21:00), C one minute after it; universe-driven alpha, weekly WED, 8 days'))
@@ -61,13 +62,14 @@ def all_configs(tier):
                    bound='1 asset, 9 business days, weekly THU, burn-in exactly on the first rebalance instant'))
     c.append(_base('s1_bah', rebalance='buy_and_hold', start_tod='14:30', nd=5,
                    bound='1 asset, buy-and-hold from a 14:30 start, 5 business days'))
+    c.append(_base('s1_weekly_mon', weekday='MON', nd=5, bound='1 asset, weekly MON with the session starting on a Monday (the start day is itself a rebalance day), 5 days'))
     c.append(_base('s1_ls', long_only=False, weights={'EQ:A': -1.0}, nd=6, bound='1 asset short, long/short leverage 1.5, weekly WED, 6 days'))
     c.append(_base('s1_two_rebalances', weekday='TUE', nd=8, bound='1 asset, weekly TUE: two rebalances (days 1 and 6) both of which fill, 8 days'))
     c.append(_base('s1_burnin_between', burn_in='2020-01-09 00:00', nd=9, bound='1 asset, 9 days, weekly WED, burn-in between two rebalances (the first rebalance must be skipped)'))
     if tier == 'thorough':
         c.append(_base('s3_dynamic_signals', assets=['EQ:A', 'EQ:B', 'EQ:C'], universe='dynamic',
                        entries={'EQ:A': '2020-01-01 00:00', 'EQ:B': '2020-01-07 00:00', 'EQ:C': '2020-01-07 00:00'}, alpha='sma_trend', nd=5, weight=4000, chunk=4,
-                       bound='3 assets (A from the start, B and C entering together on day 1), SMA(2) signals, trend-following alpha, weekly WED, 5 days'))
+                       bound='3 assets (A from the start, B and C entering together on day 1), SMA(3) signals, trend-following alpha, weekly WED, 5 days'))
         c.append(_base('s1_ls8', long_only=False, weights={'EQ:A': -1.0}, bound='1 asset short, long/short leverage 1.5, weekly WED, 8 days'))
         c.append(_base('s2_ls', assets=['EQ:A', 'EQ:B'], long_only=False, weights={'EQ:A': 0.5, 'EQ:B': -0.5}, weight=3000, chunk=4,
                        bound='2 assets long/short (0.5,-0.5), leverage 1.5, weekly WED, 8 days'))
@@ -81,15 +83,15 @@ def all_configs(tier):
 
 
 PROP_CONFIGS = {
-    'C07': dict(quick=['s1_weekly', 's1_weekly_holiday', 's2_weekly5', 's2_latestart'],
+    'C07': dict(quick=['s1_weekly', 's1_weekly_holiday', 's2_weekly5', 's2_latestart', 's2_dynamic_signals'],
                 thorough=['s1_weekly', 's1_weekly_holiday', 's2_weekly5', 's2_latestart', 's2_weekly', 's2_dynamic_signals', 's1_burnin', 's1_bah', 's1_ls', 's2_ls',
                           's1_eom', 's1_daily', 's1_weekly_fri', 's2_weekly_holiday', 's2_entries_on_instant']),
-    'C08': dict(quick=['s1_weekly', 's1_bah', 's1_ls', 's1_two_rebalances'], thorough=['s1_weekly', 's1_bah', 's2_weekly', 's1_ls', 's1_ls8', 's1_two_rebalances', 's2_ls', 's1_eom', 's1_daily', 's1_weekly_fri', 's1_zerofee_weekly_mon']),
+    'C08': dict(quick=['s1_weekly', 's1_bah', 's1_ls', 's1_two_rebalances', 's1_weekly_mon'], thorough=['s1_weekly', 's1_bah', 's2_weekly', 's1_ls', 's1_ls8', 's1_two_rebalances', 's1_weekly_mon', 's2_ls', 's1_eom', 's1_daily', 's1_weekly_fri', 's1_zerofee_weekly_mon']),
     'C18': dict(quick=['s2_weekly5', 's2_dynamic_signals'], thorough=['s2_weekly', 's2_dynamic_signals', 's1_weekly', 's2_ls', 's3_dynamic_signals']),
     'C16': dict(quick=['s2_dynamic_signals'], thorough=['s2_dynamic_signals', 's3_dynamic_signals']),
     'C19': dict(quick=['s2_entries_on_instant', 's2_entries_minute_late', 's2_entries_never', 's2_entries_after_end'],
                 thorough=['s3_entries', 's2_entries_on_instant', 's2_entries_minute_late', 's2_entries_never', 's2_entries_after_end']),
-    'C14': dict(quick=['s1_weekly', 's1_burnin', 's1_burnin_between', 's1_bah'], thorough=['s1_weekly', 's1_burnin', 's1_bah', 's1_burnin_between', 's1_eom', 's1_daily', 's2_weekly', 's1_weekly_fri']),
+    'C14': dict(quick=['s1_weekly', 's1_burnin', 's1_burnin_between', 's1_bah', 's1_weekly_mon'], thorough=['s1_weekly', 's1_burnin', 's1_bah', 's1_burnin_between', 's1_eom', 's1_daily', 's2_weekly', 's1_weekly_fri']),
 }
 
 
@@ -279,8 +281,8 @@ class Session(Harness):
             from qstrader.signals.sma import SMASignal
             from qstrader.signals.signals_collection import SignalsCollection
             start_ = pd.Timestamp('%s %s' % (cfg['start'], cfg['start_tod']), tz=pytz.UTC)
-            signals = SignalsCollection({'sma': SMASignal(start_, uni, [2])}, dh)
-            alpha = TrendAlpha(signals, uni, dh, 2)
+            signals = SignalsCollection({'sma': SMASignal(start_, uni, [SMA_LB])}, dh)
+            alpha = TrendAlpha(signals, uni, dh, SMA_LB)
         else:
             alpha = SingleSignalAlphaModel(uni, signal=1.0)
         start = pd.Timestamp('%s %s' % (cfg['start'], cfg['start_tod']), tz=pytz.UTC)
@@ -328,7 +330,7 @@ class Session(Harness):
         return dict(equity=list(s.equity_curve), history=hist, fills=rec['fills'], alloc=list(s.target_allocations), cash=port.cash,
                     holdings={a: d['quantity'] for a, d in s.broker.get_portfolio_as_dict(PID).items()}, err=rec['err'],
                     dh_calls=rec['dh_calls'], schedule=list(s.rebalance_schedule), ds=ds,
-                    signal_windows=({a: list(signals['sma'].buffers.prices.get('%s_2' % a, ['absent'])) for a in self.A} if signals is not None else None),
+                    signal_windows=({a: list(signals['sma'].buffers.prices.get('%s_%d' % (a, SMA_LB), ['absent'])) for a in self.A} if signals is not None else None),
                     signal_updates=(signals.warmup if signals is not None else None),
                     alloc_cols=[[k for k in a_.keys()] for a_ in s.target_allocations])
 
@@ -452,7 +454,7 @@ class Session(Harness):
         for a in self.A:
             e = entry.get(a, closes[0]) if self.cfg['universe'] == 'dynamic' else closes[0]
             days = [k for k, c in enumerate(closes) if e is not None and e <= c]
-            want = [L.num(i['m'][self.vname(a, 'c', k)]) for k in days][-2:]
+            want = [L.num(i['m'][self.vname(a, 'c', k)]) for k in days][-SMA_LB:]
             got = run['signal_windows'][a]
             got = [] if got == ['absent'] else got
             obl.append(('%s:window_length' % a, L.bool(len(got) != len(want))))
